@@ -8,7 +8,7 @@ ClassSpec (dict):
         (only keys that are set are passed to the class statement)
   fields: [ {name, type (type AST, see grammar), default: None | ['value', expr] | ['factory', 'list'|'dict'|'set'|<class leaf>],
              kw_only, rename, aliases, in_names, out_name, exclude, init, compare, hash, repr} ]
-  post: None | 'count' | ['raise_if', field, expr, ExcName]
+  post: None | 'count' | ['raise_if', field, expr, ExcName] | ['assign_self', field]
   kw_marker_before: optional field name before which a `_: KW_ONLY` marker is placed
 """
 from __future__ import annotations
@@ -181,6 +181,11 @@ def build_class(spec, build_type, eval_expr, registry=None, bases=None):
         def __post_init__(self, _key=key):
             PostCounter.counts[_key] = PostCounter.counts.get(_key, 0) + 1
         ns['__post_init__'] = __post_init__
+    elif post and post[0] == 'assign_self':
+        # a hook that normalises a field by ordinary assignment (the class must not be frozen)
+        def __post_init__(self, _f=post[1]):
+            setattr(self, _f, getattr(self, _f))
+        ns['__post_init__'] = __post_init__
     elif post:
         _, fname, expr, excname = post
         trig = eval_expr(expr)
@@ -196,9 +201,12 @@ def build_class(spec, build_type, eval_expr, registry=None, bases=None):
         prev = ns.get('__post_init__')
         setters = dict(spec['init_false_setter'])
 
-        def __post_init__(self, _prev=prev, _s=setters):   # noqa: F811
+        def __post_init__(self, _prev=prev, _s=setters, _plain=bool(spec.get('plain_setattr'))):   # noqa: F811
             for k, expr in _s.items():
-                object.__setattr__(self, k, eval_expr(expr))
+                if _plain:
+                    setattr(self, k, eval_expr(expr))       # an ordinary `self.k = ...` (the class is not frozen)
+                else:
+                    object.__setattr__(self, k, eval_expr(expr))
             if _prev is not None:
                 _prev(self)
         ns['__post_init__'] = __post_init__
